@@ -59,7 +59,11 @@ fn eval(args: &[String]) -> i32 {
     let chunks: Vec<&[J]> = cases.chunks(chunk).collect();
     let results: Vec<Vec<J>> = par_map(&chunks, threads, |ch| {
         let mut ctx = base.clone();
+        let mut used = 0usize;
         ch.iter().map(|c| {
+            // a session's constant table is finite (65 535 entries; C08's finding): take a new copy now and then
+            used += 1;
+            if used % 200 == 0 { ctx = base.clone(); }
             let mut outs = vec![];
             for e in c["exprs"].as_array().unwrap() {
                 let text = e.as_str().unwrap();
@@ -111,7 +115,10 @@ fn assert_run(args: &[String]) -> i32 {
     let chunks: Vec<&[J]> = cases.chunks(chunk).collect();
     let results: Vec<Vec<J>> = par_map(&chunks, threads, |ch| {
         let mut ctx = base.clone();
+        let mut used = 0usize;
         ch.iter().map(|c| {
+            used += 1;
+            if used % 200 == 0 { ctx = base.clone(); }
             let marker = c["marker"].as_str().unwrap();
             let before: std::collections::BTreeSet<String> = ctx.variable_names().map(|s| s.to_string()).collect();
             let r = run_input(&mut ctx, c["code"].as_str().unwrap());
